@@ -834,7 +834,24 @@ func (c *simCtx) errValueFails(ev ssa.Value) (bool, bool) {
 	case *ssa.Call:
 		call, idx = x, 0
 	case *ssa.Phi:
-		// all incoming values fail?
+		// the incoming value selected under the scenario (an error variable set
+		// on the offending branch and returned later), else: all incoming values fail?
+		if !c.phiBusy[x] {
+			if c.phiBusy == nil {
+				c.phiBusy = map[*ssa.Phi]bool{}
+			}
+			c.phiBusy[x] = true
+			pv, uniq := phiValueUnder(c.f, x, c.oracle)
+			delete(c.phiBusy, x)
+			if uniq && pv != nil && resolve(pv) != ssa.Value(x) {
+				if isErrorCtor(resolve(pv)) {
+					return true, true
+				}
+				if _, isPhi := resolve(pv).(*ssa.Phi); !isPhi {
+					return c.errValueFails(pv)
+				}
+			}
+		}
 		for _, ed := range x.Edges {
 			f, k := c.errValueFails(ed)
 			if !k || !f {
@@ -842,8 +859,16 @@ func (c *simCtx) errValueFails(ev ssa.Value) (bool, bool) {
 			}
 		}
 		return true, true
+	case *ssa.MakeInterface, *ssa.ChangeInterface:
+		if isErrorCtor(ev) {
+			return true, true
+		}
+		return false, false
 	default:
 		return false, false
+	}
+	if isErrorCtor(call) {
+		return true, true
 	}
 	g := calleeOf(call)
 	if g == nil {
